@@ -355,6 +355,27 @@ def maskenc(mask):
     return '/'.join(''.join('1' if mask[r, c] else '0' for r in range(mask.shape[0])) for c in range(mask.shape[1]))
 
 
+def dense_col(col):
+    """a column of site tensors (n, e, s, w) or None -> matrix [E multi-index, W multi-index] (rows contracted)"""
+    cur = np.ones((1, 1, 1))
+    for tsr in col:
+        if tsr is None:
+            tsr = np.ones((1, 1, 1, 1))
+        a, b, _ = cur.shape
+        n, e, s_, w = tsr.shape
+        cur = np.einsum('abn,nesw->aebws', cur, np.asarray(tsr, dtype=float)).reshape(a * e, b * w, s_)
+    return cur[:, :, 0]
+
+
+def dense_columns(arrs, cols):
+    """exact dense operator of the selected columns in spatial (left-to-right) order"""
+    m = None
+    for c in sorted(cols):
+        d = dense_col([arrs[r, c] for r in range(arrs.shape[0])])
+        m = d if m is None else d @ m
+    return m
+
+
 def sss_all(C, steps=(None, 1, -1)):
     vals = [None] + list(range(-C - 1, C + 2))
     return [(a, b, s) for a in vals for b in vals for s in steps]
@@ -521,6 +542,15 @@ def _run(ctx, tt, ttmps, trace, mpmath):
                         ctx.violation('partial-mult', 'multiplier of an untruncated partial contraction is not mpf(1)', rep)
                     if (res[0] is None) != (not cols):
                         ctx.violation('partial-none', 'partial contraction returns None iff the range is empty', rep)
+                    if cols and res[0] is not None and mf == 1:
+                        try:
+                            ref = dense_columns(arrs, cols)
+                            got = dense_col(list(res[0])) if ref.size <= 2000000 else None
+                        except Exception:  # noqa  (shape trouble is reported by the model comparison)
+                            got = None
+                        if got is not None and (got.shape != ref.shape or not np.allclose(got, ref, rtol=1e-9, atol=1e-12 * (np.abs(ref).max() or 1))):
+                            ctx.violation('partial-value', 'partial contraction over the selected columns is not the exact product of '
+                                          'those columns (independent dense evaluation)', rep)
                 for t in tr:
                     maxbond = max(maxbond, t[0])
         # chi exactly the largest bond that occurs (no-op), on forward and reverse full sweeps
